@@ -50,6 +50,9 @@ static struct { void* p; size_t n; bool live; int freed_times; int wiped_before_
 static int L_foreign_free;      /* free() of something that is not a live ledger block */
 static int L_nfc_calls, L_nfkd_calls;
 static const char* L_nfc_in; static char* L_nfc_out;
+#define DEP_IN_COPY 48
+static char L_nfc_in_copy[DEP_IN_COPY];   /* first bytes of what the composer was given */
+static char L_nfkd_in_copy[DEP_IN_COPY];  /* first bytes of what the decomposer was given */
 static const char* L_nfkd_in; static char* L_nfkd_out;
 static int L_seq;               /* global order of dependency calls */
 static int L_last_other_seq;    /* order number of the last call that is not a wipe (dependency or harness-level stub) */
@@ -142,10 +145,12 @@ static size_t dep_norm_write(polyseed_str norm) {
 }
 static size_t dep_nfc(const char* str, polyseed_str norm) {
     DEP_TICK(); L_nfc_calls++; L_nfc_in = str; L_nfc_out = norm;
+    { bool end_ = false; for (int i_ = 0; i_ < DEP_IN_COPY; ++i_) { if (!end_ && str[i_] == '\0') end_ = true; L_nfc_in_copy[i_] = end_ ? '\0' : str[i_]; } }
     return dep_norm_write(norm);
 }
 static size_t dep_nfkd(const char* str, polyseed_str norm) {
     DEP_TICK(); L_nfkd_calls++; L_nfkd_in = str; L_nfkd_out = norm;
+    { bool end_ = false; for (int i_ = 0; i_ < DEP_IN_COPY; ++i_) { if (!end_ && str[i_] == '\0') end_ = true; L_nfkd_in_copy[i_] = end_ ? '\0' : str[i_]; } }
     return dep_norm_write(norm);
 }
 
